@@ -121,7 +121,8 @@ Definition prop_storemap (input obs : val) : val :=
     check_steps (v_front kn) o roots cls m_empty (v_sops (vL (vnth 4 input))) (vL (vnth 1 obs)).
 
 (* ==== kind "deferred" (C20) ===============================================================================
-   input  = (target v1given opts roots ops)     target: 0 path | 1 stream; roots: (cid ...) or tnil
+   input  = (target v1given opts roots ops pre) target: 0 path | 1 stream; roots: (cid ...) or tnil;
+            pre: tnone | b<bytes> = the file at the output path before the writer is used (path target)
             ops: (tonput id once) (thas key) (tput key data) (tclose)
    output = ((res log bytes exists directbytes) ...)  per step:
             res = result of the call; log = ((id len) ...) callback invocations made by the call;
@@ -130,7 +131,8 @@ Definition prop_storemap (input obs : val) : val :=
             roots and options that is created at the first Put and fed the same Puts (Finalize at Close). *)
 Definition v_dcfg (input : val) : dcfg :=
   mkdcfg (if vN (vnth 0 input) =? 0 then TPath else TStream) (v_wopts (vnth 2 input)) (vbool (vnth 1 input))
-         (is_nil_tag (vnth 3 input)) (vcids (vnth 3 input)).
+         (is_nil_tag (vnth 3 input)) (vcids (vnth 3 input))
+         (match vnth 5 input with VB b => Some b | _ => None end).
 
 Definition v_dop (op : val) : option dop :=
   if tag_is op "onput" then Some (DOnPut (vN (vnth 1 op)) (vbool (vnth 2 op)))
@@ -165,7 +167,7 @@ Fixpoint run_dsteps (c : dcfg) (st : dstate) (dir : option wstate) (ops : list d
   | op :: t =>
     let '(st', o) := d_step c st op in
     let dir' := direct_step c (d_closed st) dir op in
-    VL [v_out (do_res o); v_log (do_log o); VB (d_bytes st'); v_of_bool (d_exists st');
+    VL [v_out (do_res o); v_log (do_log o); VB (d_bytes c st'); v_of_bool (d_exists c st');
         VB (match dir' with Some s => ws_file s | None => [] end)]
     :: run_dsteps c st' dir' t
   end.
@@ -174,11 +176,13 @@ Definition run_deferred (input : val) : val :=
   VL (run_dsteps (v_dcfg input) d_init None (v_dops (vL (vnth 4 input)))).
 
 (* the property, on what the implementation did:
-   lazy      -- until a Put has been issued on a writer that was not closed: no byte, no file;
+   lazy      -- until a Put has been issued on a writer that was not closed: no byte on the stream; the
+                output path is as it was (no file, or the pre-existing file with its bytes);
    callbacks -- a Put invokes exactly the live callbacks, in registration order, with len(content);
    closed    -- after Close: Has/Put/Close answer "closed", and the output no longer changes;
-   identical -- the output equals the direct writer's output after every step. *)
-Fixpoint check_dsteps (cls : string) (acc : list (N * bool) * bool) (started : bool) (prev : bytes)
+   identical -- from the first such Put on, the output equals the output of the direct writer (which
+                writes to a fresh target) after every step, whatever was at the path before. *)
+Fixpoint check_dsteps (c : dcfg) (cls : string) (acc : list (N * bool) * bool) (started : bool) (prev : bytes)
          (ops : list dop) (obs : list val) : val :=
   match ops, obs with
   | op :: ops', ob :: obs' =>
@@ -193,13 +197,14 @@ Fixpoint check_dsteps (cls : string) (acc : list (N * bool) * bool) (started : b
           negb (val_eqb (v_log want) (vnth 1 ob))
       | _ => negb (val_eqb (VL []) (vnth 1 ob))
       end in
-    if negb started' && (negb (bytes_eqb bytes []) || vbool (vnth 3 ob)) then fail "written-before-first-put" cls
+    if negb started' && (negb (bytes_eqb bytes (pre_bytes c)) || negb (Bool.eqb (vbool (vnth 3 ob)) (pre_exists c)))
+    then fail "written-before-first-put" cls
     else if bad_log then fail "callback-log-differs" cls
     else if closed && (match op with DOnPut _ _ => false | _ => true end)
             && negb (val_eqb res (VL [VT "err"; VT "closed"])) then fail "not-closed-after-close" cls
     else if closed && negb (bytes_eqb bytes prev) then fail "output-changed-after-close" cls
-    else if negb (bytes_eqb bytes (vB (vnth 4 ob))) then fail "differs-from-direct-writer" cls
-    else check_dsteps cls (live_step acc op) started' bytes ops' obs'
+    else if started' && negb (bytes_eqb bytes (vB (vnth 4 ob))) then fail "differs-from-direct-writer" cls
+    else check_dsteps c cls (live_step acc op) started' bytes ops' obs'
   | _, _ => VT "ok"
   end.
 
@@ -207,4 +212,4 @@ Definition prop_deferred (input obs : val) : val :=
   let c := v_dcfg input in
   let cls := String.append (match dc_target c with TPath => "path" | TStream => "stream" end)
                            (if w_v1 (eff_opts c) then "-v1" else "-v2") in
-  check_dsteps cls ([], false) false [] (v_dops (vL (vnth 4 input))) (vL obs).
+  check_dsteps c cls ([], false) false (pre_bytes c) (v_dops (vL (vnth 4 input))) (vL obs).
